@@ -402,3 +402,152 @@ func sameValue(a, b *Org) bool {
 	}
 	return a.V != nil && a.V == b.V
 }
+
+
+// fsValues: flow-sensitive resolution of a value that may be a load of a
+// local memory cell (an address-taken or captured local, a result spilled
+// because of defer): the values stored to the cell that can reach the load,
+// followed through chains of such copies. A nil element stands for "the
+// cell's initial content (or a write outside this function)". When via is
+// non-nil only paths through block via are considered up to via (used to
+// ask "what does this load yield when control came through that edge").
+// Writes by called functions and goroutines are not modelled.
+func fsValues(x ssa.Value, at ssa.Instruction, via *ssa.BasicBlock) []ssa.Value {
+	return fsValuesVia(x, at, via, nil, nil)
+}
+
+func forwardReach(b *ssa.BasicBlock) map[*ssa.BasicBlock]bool {
+	allowed := map[*ssa.BasicBlock]bool{b: true}
+	work := []*ssa.BasicBlock{b}
+	for len(work) > 0 {
+		c := work[len(work)-1]
+		work = work[:len(work)-1]
+		for _, s := range c.Succs {
+			if !allowed[s] {
+				allowed[s] = true
+				work = append(work, s)
+			}
+		}
+	}
+	return allowed
+}
+
+// fsValuesVia: as fsValues, considering only paths that (walking forwards)
+// pass through block origin (if given), then enter block via through the
+// edge edgeFrom->via (if edgeFrom is given), then reach the load.
+func fsValuesVia(x ssa.Value, at ssa.Instruction, via, edgeFrom, origin *ssa.BasicBlock) []ssa.Value {
+	seen := map[ssa.Value]bool{}
+	var out []ssa.Value
+	add := func(v ssa.Value) {
+		if !seen[v] {
+			seen[v] = true
+			out = append(out, v)
+		}
+	}
+	var allowedVia, allowedOrg map[*ssa.BasicBlock]bool
+	if via != nil {
+		allowedVia = forwardReach(via)
+	}
+	if origin != nil {
+		allowedOrg = forwardReach(origin)
+	}
+	// phase 0: before reaching via (walking backwards); 1: between via and origin; 2: free
+	var resolve func(v ssa.Value, phase int, depth int)
+	resolve = func(v ssa.Value, phase int, depth int) {
+		ld, ok := v.(*ssa.UnOp)
+		if !ok || ld.Op != token.MUL || depth > 6 {
+			add(v)
+			return
+		}
+		switch ld.X.(type) {
+		case *ssa.Alloc, *ssa.FreeVar:
+		default:
+			add(v)
+			return
+		}
+		cell := ld.X
+		fn := ld.Parent()
+		type pos struct {
+			b     *ssa.BasicBlock
+			i     int
+			phase int
+		}
+		visited := map[[2]interface{}]bool{}
+		var work []pos
+		idx := len(ld.Block().Instrs)
+		for i, in := range ld.Block().Instrs {
+			if in == ssa.Instruction(ld) {
+				idx = i
+			}
+		}
+		ph := phase
+		if via == nil && ph == 0 {
+			ph = 1
+		}
+		if origin == nil && ph == 1 {
+			ph = 2
+		}
+		work = append(work, pos{ld.Block(), idx, ph})
+		for len(work) > 0 {
+			p := work[len(work)-1]
+			work = work[:len(work)-1]
+			found := false
+			for i := p.i - 1; i >= 0; i-- {
+				if st, ok := p.b.Instrs[i].(*ssa.Store); ok && st.Addr == cell {
+					resolve(st.Val, p.phase, depth+1)
+					found = true
+					break
+				}
+			}
+			if found {
+				continue
+			}
+			phase := p.phase
+			onlyPred := (*ssa.BasicBlock)(nil)
+			if phase == 0 && p.b == via {
+				phase = 1
+				onlyPred = edgeFrom
+				if origin == nil {
+					phase = 2
+				}
+			}
+			if phase == 1 && p.b == origin {
+				phase = 2
+			}
+			if len(p.b.Preds) == 0 && p.b == fn.Blocks[0] {
+				if phase == 2 || (phase == 1 && origin == nil) {
+					add(nil)
+				}
+				continue
+			}
+			for _, pr := range p.b.Preds {
+				if onlyPred != nil && pr != onlyPred {
+					continue
+				}
+				if phase == 0 && !allowedVia[pr] {
+					continue
+				}
+				if phase == 1 && allowedOrg != nil && !allowedOrg[pr] {
+					continue
+				}
+				k := [2]interface{}{pr, phase}
+				if visited[k] {
+					continue
+				}
+				visited[k] = true
+				work = append(work, pos{pr, len(pr.Instrs), phase})
+			}
+		}
+	}
+	resolve(x, 0, 0)
+	return out
+}
+
+// fsUnique: the single value a (possibly cell-loaded) value certainly is.
+func fsUnique(x ssa.Value, at ssa.Instruction, via *ssa.BasicBlock) ssa.Value {
+	vs := fsValues(x, at, via)
+	if len(vs) == 1 && vs[0] != nil {
+		return vs[0]
+	}
+	return nil
+}
